@@ -183,6 +183,19 @@ Theorem string_replace_absent : forall s x y, x <> EmptyString ->
   (forall pre post, s <> (pre ++ x ++ post)%string) ->
   scall SReplace s [EStr x; EStr y] = Some (EStr s).
 Proof. intros s x y N H. cbn. rewrite (replace_absent_l x y s N H). reflexivity. Qed.
+(* split() without a separator (on white space): every piece is non-empty and free of white
+   space, and the pieces concatenated are the receiver with its (ASCII) white space removed *)
+Theorem string_split_space_spec : forall s l,
+  scall SSplit s [] = Some (EArr (map EStr l)) ->
+  sconcat l = drop_spaces s /\ forallb good_field l = true.
+Proof.
+  intros s l H. cbn in H. injection H as H.
+  assert (E : l = fields s).
+  { revert H. generalize (fields s). induction l as [|a l IH]; intros [|b m] H; try discriminate; [reflexivity|].
+    cbn in H. injection H as -> H. f_equal. apply IH. exact H. }
+  subst l. exact (fields_spec_l s).
+Qed.
+Print Assumptions string_split_space_spec.
 Print Assumptions string_trim_spec.
 Print Assumptions string_replace_absent.
 Print Assumptions string_startsWith_iff.
